@@ -136,36 +136,49 @@ Proof.
 Qed.
 
 Lemma dq_loop_spec : forall fuel text q qq r, good_tag q ->
-  dq_loop fuel text q qq = Some r -> good_tag r /\ contains r text = false.
+  dq_loop fuel text q qq = Some r -> good_tag r /\ contains r (text ++ removelast r) = false.
 Proof.
   induction fuel as [|f IH]; intros text q qq r Hq H; cbn [dq_loop] in H;
-    destruct (contains q text) eqn:E; try discriminate.
+    destruct (contains q (text ++ removelast q)) eqn:E; try discriminate.
   - inversion H; subst; auto.
   - eapply IH; [|exact H]. apply dq_tag_good. apply dq_next_mod.
   - inversion H; subst; auto.
 Qed.
 
-Definition dq_safe (s : ustr) : bool :=
-  match dq_loop (S (length s)) s g_dq_init 0 with
-  | Some q => tag_safe q s
-  | None => true
-  end.
+(* the loop condition `quote in text + quote[:-1]` rules out both an occurrence inside the text
+   and a text whose tail runs into the closing quote *)
+Lemma loop_cond_safe : forall x h s,
+  contains (x :: h ++ [x]) (s ++ removelast (x :: h ++ [x])) = false ->
+  contains (x :: h ++ [x]) s = false /\ tag_safe (x :: h ++ [x]) s = true.
+Proof.
+  intros x h s H. split.
+  - destruct (contains (x :: h ++ [x]) s) eqn:E; auto.
+    rewrite (contains_app_l _ _ _ E) in H. discriminate.
+  - unfold tag_safe. apply negb_true_iff.
+    destruct (suffix (removelast (x :: h ++ [x])) s) eqn:E; auto.
+    apply suffix_true_end in E as [pre E]. exfalso.
+    change (x :: h ++ [x]) with ((x :: h) ++ [x]) in *. rewrite removelast_last in *.
+    rewrite E in H. rewrite <- app_assoc in H.
+    replace ((x :: h) ++ x :: h) with (((x :: h) ++ [x]) ++ h) in H
+      by (rewrite <- app_assoc; reflexivity).
+    rewrite contains_mid in H. discriminate.
+Qed.
 
 Lemma good_tag_lex : forall q s k, good_tag q ->
-  contains q s = false -> tag_safe q s = true -> no_prohibited s = true ->
+  contains q (s ++ removelast q) = false -> no_prohibited s = true ->
   ql_lex1 U ((q ++ s ++ q) ++ k) = LexOk (TStr s) k.
 Proof.
-  intros q s k Hq. destruct Hq as [|h0 h H0 Hh]; intros.
-  - now apply p_ql_dollar2.
-  - now apply p_ql_dollar_tag.
+  intros q s k Hq. destruct Hq as [|h0 h H0 Hh]; intros Hc Hp.
+  - destruct (loop_cond_safe 36 [] s Hc). now apply p_ql_dollar2.
+  - destruct (loop_cond_safe 36 (h0 :: h) s Hc). now apply p_ql_dollar_tag.
 Qed.
 
 Theorem p_ql_dollar_quote_literal : forall s k out,
-  no_prohibited s = true -> dq_safe s = true ->
+  no_prohibited s = true ->
   ql_dollar_quote_literal s = Some out ->
   ql_lex1 U (out ++ k) = LexOk (TStr s) k.
 Proof.
-  intros s k out Hp Hs H. unfold ql_dollar_quote_literal in H. unfold dq_safe in Hs.
+  intros s k out Hp H. unfold ql_dollar_quote_literal in H.
   destruct (dq_loop (S (length s)) s g_dq_init 0) as [q|] eqn:E; [|discriminate].
   inversion H; subst out. apply dq_loop_spec in E as [Hg Hc]; [|apply gt_init].
   now apply good_tag_lex.
@@ -173,36 +186,43 @@ Qed.
 
 (* ------------------------------------------------------------------ visit_Constant (STRING) *)
 
-Definition ql_const_safe (s : ustr) : bool :=
-  if existsb (fun c => in_ranges c g_ql_nonprintable) s then forallb (repr_char_ok U) s
-  else no_prohibited s &&
-       (if mem 39 s && mem 34 s then
-          (if contains [36; 36] s then dq_safe s else tag_safe [36; 36] s)
-        else true).
+Lemma nonprintable_prohibited : forall c, prohibited c = true -> in_ranges c g_ql_nonprintable = true.
+Proof.
+  intros c H. unfold prohibited, in_range in H.
+  apply orb_true_iff in H as [H|H]; [apply orb_true_iff in H as [H|H]|].
+  - apply N.eqb_eq in H; subst; reflexivity.
+  - apply andb_true_iff in H as [H1 H2]. apply N.leb_le in H1, H2.
+    unfold in_ranges, g_ql_nonprintable, in_range. cbn [existsb fst snd]. leb_solve. reflexivity.
+  - apply andb_true_iff in H as [H1 H2]. apply N.leb_le in H1, H2.
+    unfold in_ranges, g_ql_nonprintable, in_range. cbn [existsb fst snd]. leb_solve. reflexivity.
+Qed.
+
+Lemma no_nonprintable_no_prohibited : forall s,
+  existsb (fun c => in_ranges c g_ql_nonprintable) s = false -> no_prohibited s = true.
+Proof.
+  induction s as [|c s IH]; intros H; [reflexivity|]. cbn [existsb] in H. apply orb_false_iff in H as [H1 H2].
+  unfold no_prohibited in *. cbn [forallb]. rewrite IH by auto. rewrite andb_true_r. apply negb_true_iff.
+  destruct (prohibited c) eqn:E; auto. apply nonprintable_prohibited in E. congruence.
+Qed.
 
 Theorem p_ql_visit_constant : forall s k out,
-  ql_const_safe s = true -> ql_visit_constant U s = Some out ->
+  (existsb (fun c => in_ranges c g_ql_nonprintable) s = true -> forallb (repr_char_ok U) s = true) ->
+  ql_visit_constant U s = Some out ->
   ql_lex1 U (out ++ k) = LexOk (TStr s) k.
 Proof.
-  intros s k out Hs H. unfold ql_const_safe in Hs. unfold ql_visit_constant in H.
-  destruct (existsb (fun c => in_ranges c g_ql_nonprintable) s).
-  - cbn [negb] in H. inversion H; subst. now apply p_py_repr.
-  - cbn [negb] in H. apply andb_true_iff in Hs as [Hp Hs].
-    unfold g_ql_delims, g_ql_noraw_delim in H. cbn [vc_delims] in H.
+  intros s k out Hs H. unfold ql_visit_constant in H.
+  destruct (existsb (fun c => in_ranges c g_ql_nonprintable) s) eqn:En.
+  - cbn [negb] in H. inversion H; subst. apply p_py_repr. auto.
+  - cbn [negb] in H. pose proof (no_nonprintable_no_prohibited s En) as Hp.
+    unfold g_ql_delims in H. cbn [vc_delims] in H.
     rewrite !contains_single in H.
     destruct (mem 39 s) eqn:E39.
     + destruct (mem 34 s) eqn:E34.
-      * cbn [negb andb] in H, Hs.
-        destruct (contains [36; 36] s) eqn:Ed.
-        -- cbn [negb] in H. now apply p_ql_dollar_quote_literal with (out := out).
-        -- cbn [negb] in H. cbn in H. rewrite andb_false_r in H. inversion H; subst.
-           now apply p_ql_dollar2.
-      * cbn [negb] in H. cbn [str_eqb N.eqb Pos.eqb andb negb] in H. rewrite andb_true_r in H.
-        destruct (mem 92 s) eqn:E92; inversion H; subst.
+      * cbn [negb] in H. now apply p_ql_dollar_quote_literal with (out := out).
+      * cbn [negb] in H. destruct (mem 92 s) eqn:E92; inversion H; subst.
         -- apply p_ql_raw; auto.
         -- apply p_ql_plain; auto.
-    + cbn [negb] in H. cbn [str_eqb N.eqb Pos.eqb andb negb] in H. rewrite andb_true_r in H.
-      destruct (mem 92 s) eqn:E92; inversion H; subst.
+    + cbn [negb] in H. destruct (mem 92 s) eqn:E92; inversion H; subst.
       * apply p_ql_raw; auto.
       * apply p_ql_plain; auto.
 Qed.
